@@ -101,6 +101,19 @@ func check(args []string) int {
 			rules.ThoroughExtras(c)
 		}
 	}()
+	if c.Thorough() && os.Getenv("KGV_NO_SWEEP") == "" {
+		if nb, notes := neighbourhoodSweep(*prop, *repo, *root); nb != nil {
+			if c.Extra == nil {
+				c.Extra = map[string]interface{}{}
+			}
+			c.Extra["neighbourhood"] = nb
+			for _, n := range notes {
+				c.Note("%s", n)
+			}
+			fmt.Printf("%s thorough neighbourhood: %v seeded detected of %v applied, %v refactorings silent of %v applied, %v patches not applicable\n", *prop,
+				nb["seeded_detected"], nb["seeded_applied"], nb["refactorings_silent"], nb["refactorings_applied"], nb["patches_not_applicable"])
+		}
+	}
 	if *only != "" {
 		for _, o := range c.Obs {
 			if strings.Contains(o.Rule, *only) || *only == "all" {
